@@ -129,6 +129,9 @@ class PyReader:
                 else:
                     self.fail(s, "list method arguments")
                 continue
+            if isinstance(s, ast.Expr) and isinstance(s.value, ast.Call):
+                self.ev(s.value, env, fns)  # evaluated for its effects (raises); the value is dropped
+                continue
             if isinstance(s, ast.FunctionDef):
                 fns[s.name] = s
             elif isinstance(s, ast.Assign) and len(s.targets) == 1:
@@ -137,6 +140,8 @@ class PyReader:
                 self.assign(s.target, self.ev(s.value, env, fns), env, s)
             elif isinstance(s, ast.If):
                 t = self.ev(s.test, env, fns)
+                if t is None:
+                    t = False
                 if not isinstance(t, bool):
                     self.fail(s.test, "condition not decidable on abstract values")
                 self.block(s.body if t else s.orelse, env, fns)
@@ -192,6 +197,8 @@ class PyReader:
             g = self.global_value(n)
             if g is not None:
                 return g
+            if n.id == "pi":
+                return T("pi")
             self.fail(n, "unbound name")
         if isinstance(n, ast.Attribute):
             d = dotted(n)
@@ -205,9 +212,14 @@ class PyReader:
             if g is not None:
                 return g
             base = self.ev(n.value, env, fns)
+            if n.attr in ("is_negative", "is_positive", "is_zero", "is_nonnegative", "is_nonpositive") and isinstance(base, (T, int)):
+                val = base if isinstance(base, int) else (base.val if base.op == "num" else (-base.args[0].val if base.op == "neg" and base.args[0].op == "num" else None))
+                if val is None:
+                    return None  # SymPy: undetermined sign of a generic symbol
+                return {"is_negative": val < 0, "is_positive": val > 0, "is_zero": val == 0, "is_nonnegative": val >= 0, "is_nonpositive": val <= 0}[n.attr]
             if isinstance(base, VVal):
                 if n.attr in ("components", "_components"):
-                    return list(base.components)
+                    return base.components  # the property hands out the vector's own list (aliasing is part of the behaviour)
                 if n.attr in ("coordinate_system", "_coordinate_system"):
                     return base.system
             if isinstance(base, Sys) and n.attr in ("coord_system_type", "_coord_system_type"):
@@ -378,6 +390,15 @@ class PyReader:
             if not isinstance(comps, list) or not isinstance(sysv, Sys):
                 self.fail(n, "Vector(...) arguments")
             return VVal([self.scalar(c, n) for c in comps], sysv)
+        if name in ("abs", "Abs") and len(args) == 1:
+            a = args[0]
+            if isinstance(a, int):
+                return abs(a)
+            if isinstance(a, T) and a.op == "num":
+                return num(abs(a.val))
+            if isinstance(a, T) and a.op == "neg" and a.args[0].op == "num":
+                return a.args[0]
+            self.fail(n, "abs of a symbolic value")
         if name in ("sqrt", "sin", "cos", "tan") and len(args) == 1:
             return op(name, self.scalar(args[0], n))
         if name in ("any", "all") and len(args) == 1 and isinstance(args[0], list) and all(isinstance(x, bool) for x in args[0]):
